@@ -181,6 +181,8 @@ class QuantifiersRemover(engines.engine.Engine, CompilerMixin):
         new_problem.name = f"{self.name}_{problem.name}"
         new_problem.clear_timed_goals()
         new_problem.clear_goals()
+        # the trajectory constraints are added again below, without quantifiers
+        new_problem.clear_trajectory_constraints()
         new_problem.clear_quality_metrics()
 
         # the actions whose forall effects, once expanded, conflict with another effect of
